@@ -741,7 +741,9 @@ class ChoiceEncoder(AbstractItemEncoder):
             name = names[0]
 
             component = value[name]
-            asn1Spec = asn1Spec[name]
+            # the type of the alternative, taken from the schema: asking
+            # the guiding object itself would select that alternative in it
+            asn1Spec = asn1Spec.componentType[name].asn1Object
 
         return encodeFun(component, asn1Spec, **options), True, True
 
